@@ -40,15 +40,15 @@ class C04(flow.Spec):
         pages = pc.pick_pages(rng, rng.randrange(2, 7))
         # frames: lo = boot root; oracle frames ascending from lo+1; pdt roots from the top of the arena
         use_pdt = rng.random() < 0.45
-        n_or = rng.choice([0, 2, 4, 8, 12, cnt - 8, cnt - 8, cnt - 8])
+        n_or = rng.choice([0, 3, 6, 12, cnt - 8, cnt - 8, cnt - 8, cnt - 8, cnt - 8])
         if use_pdt:
             n_or = max(n_or, 6)
         oracle = [LO + 1 + i for i in range(min(n_or, cnt - 8))]
         fm = rng.random()
         first_fail = 3 if use_pdt else 0
-        if fm < 0.35 and len(oracle) > first_fail:
+        if fm < 0.28 and len(oracle) > first_fail:
             oracle[rng.randrange(first_fail, len(oracle))] = 0          # failure at the k-th call
-        elif fm < 0.45 and len(oracle) > first_fail:
+        elif fm < 0.36 and len(oracle) > first_fail:
             oracle = oracle[:rng.randrange(first_fail, len(oracle))]     # exhausted
         if weird and oracle and rng.random() < 0.3:
             oracle[rng.randrange(len(oracle))] = rng.choice([LO, oracle[0], LO + cnt + 3, 5])   # not fresh / not backed
@@ -96,8 +96,13 @@ class C04(flow.Spec):
             elif r < 0.73:
                 if not use_pdt and not weird:
                     continue
-                k = rng.randrange(4)
-                f = roots[k] if rng.random() < 0.9 else rng.choice([LO, frame()])
+                free = [j for j in range(4) if j not in slots]
+                if free and rng.random() < 0.9:
+                    k = free[0]
+                    f = roots[k]
+                else:
+                    k = rng.randrange(4)
+                    f = rng.choice([roots[k], LO, frame()])
                 ops.append([4, k, f])
                 slots[k] = f
             elif r < 0.84:
